@@ -62,7 +62,9 @@ type scenario struct {
 	Reconf2 string  `json:"reconf_cfg,omitempty"`
 	Latency int64   `json:"latency,omitempty"`
 	Bound   int     `json:"bound,omitempty"`
-	MatchIdx int    `json:"matchidx,omitempty"` // index of the shape whose url_regex matches the requested URL (the others name other URLs)
+	MatchIdx int    `json:"matchidx,omitempty"`
+	Seq      []bool `json:"seq,omitempty"`     // keep-alive: the requests one client connection sends in turn (true = the URL the shape names, false = another URL)
+	HeadPad  int    `json:"headpad,omitempty"` // the response head carries an X-Pad header of this many bytes (heads larger than the proxy's 4096-byte write buffer reach the shaped connection in several writes) // index of the shape whose url_regex matches the requested URL (the others name other URLs)
 }
 
 type finding struct{ Sig, Desc string }
@@ -132,7 +134,17 @@ func configJSON(shapes []shape, latency int64) string {
 	return string(b)
 }
 
+type seqResp struct {
+	status   int
+	body     int
+	prefix   bool // the body received is a prefix of what the proxy wrote
+	complete bool
+	err      string
+	elapsed  time.Duration
+}
+
 type connObs struct {
+	seq      []seqResp
 	status   int
 	head     http.Header
 	body     []byte
@@ -252,6 +264,9 @@ func run(sc scenario) (body func(), check func(r *vrt.Result) []finding) {
 				vrt.WaitUntil("all-requests-arrived", func() bool { return arrived >= sc.Conns })
 			}
 			res := &http.Response{StatusCode: 200, Proto: "HTTP/1.1", ProtoMajor: 1, ProtoMinor: 1, Header: http.Header{"Content-Type": {"application/octet-stream"}}, Request: req}
+			if sc.HeadPad > 0 {
+				res.Header.Set("X-Pad", strings.Repeat("p", sc.HeadPad))
+			}
 			res.Body = io.NopCloser(&chunkReader{b: full[sc.R:], chunk: sc.Chunk})
 			res.ContentLength = int64(sc.N)
 			if sc.R > 0 {
@@ -294,6 +309,33 @@ func run(sc scenario) (body func(), check func(r *vrt.Result) []finding) {
 			defer cl.C.Close()
 			if gate != nil {
 				gate.Wait()
+			}
+			if len(sc.Seq) > 0 {
+				o.start = vrt.Now()
+				for _, match := range sc.Seq {
+					u := otherURL
+					if match {
+						u = matchURL
+					}
+					t0 := vrt.Now()
+					cl.Send("GET " + u + " HTTP/1.1\r\nHost: example\r\nX-Conn: " + fmt.Sprint(i) + "\r\n\r\n")
+					res, err := http.ReadResponse(cl.BR, &http.Request{Method: "GET"})
+					if err != nil {
+						o.seq = append(o.seq, seqResp{err: "head: " + err.Error(), elapsed: vrt.Now() - t0})
+						break
+					}
+					b, err := io.ReadAll(res.Body)
+					sr := seqResp{status: res.StatusCode, body: len(b), prefix: bytes.HasPrefix(full[sc.R:], b), complete: err == nil, elapsed: vrt.Now() - t0}
+					if err != nil {
+						sr.err = err.Error()
+					}
+					o.seq = append(o.seq, sr)
+					if err != nil {
+						break
+					}
+				}
+				o.end = vrt.Now()
+				return
 			}
 			o.start = vrt.Now()
 			rng := ""
@@ -429,6 +471,52 @@ func run(sc scenario) (body func(), check func(r *vrt.Result) []finding) {
 		}
 		if strings.HasPrefix(sc.Reconf, "accepted") && reconfStatus != 200 {
 			add("valid_reconfig_rejected", "reconfiguration %s was answered %d", sc.Reconf2, reconfStatus)
+		}
+		if len(sc.Seq) > 0 {
+			// keep-alive sequences: every response is judged on its own (a response to another URL is never shaped,
+			// whatever the previous response on the connection left behind; counts carry over between responses)
+			for i, o := range obs {
+				if !o.done {
+					add("client_stuck:keepalive", "connection %d never finished", i)
+					continue
+				}
+				for k, match := range sc.Seq {
+					tag := fmt.Sprintf("keepalive:resp%d_%s", k+1, map[bool]string{true: "matching", false: "other_url"}[match])
+					if k >= len(o.seq) {
+						add(tag+":missing", "connection %d: no response %d (the connection was closed after response %d although no close action applied)", i, k+1, k)
+						break
+					}
+					r := o.seq[k]
+					var e expect
+					if match && active != nil {
+						e = model(active, counts, sc.N, sc.R)
+					} else {
+						e = expect{bodyLen: sc.N}
+					}
+					if !r.prefix {
+						add(tag+":bytes_altered", "connection %d response %d: body is not a prefix of what the proxy wrote", i, k+1)
+					}
+					if r.body != e.bodyLen {
+						add(tag+":body_length", "connection %d response %d: received %d body bytes, the model says %d (cut=%v, err=%q)", i, k+1, r.body, e.bodyLen, e.cut, r.err)
+					}
+					if r.elapsed < e.minDelay {
+						add(tag+":too_fast", "connection %d response %d took %v, configured delays add up to at least %v", i, k+1, r.elapsed, e.minDelay)
+					}
+					if !(match && active != nil) && r.elapsed > time.Duration(sc.Latency)*time.Millisecond+time.Second {
+						add(tag+":delayed", "connection %d response %d (URL matches no shape) took %v", i, k+1, r.elapsed)
+					}
+					if e.cut {
+						if k+1 < len(o.seq) {
+							add(tag+":not_closed_after_cut", "connection %d: a further response arrived after the close action of response %d", i, k+1)
+						}
+						break
+					}
+				}
+			}
+			if bucketsAfterClose > bucketsAfterCfg {
+				add("buckets_leaked_after_close", "%d bucket drain threads created for connections are still alive after the connections were closed", bucketsAfterClose-bucketsAfterCfg)
+			}
+			return out
 		}
 		var cuts, wantCuts int
 		for i, o := range obs {
@@ -678,6 +766,23 @@ func scenarios(tier string) []scenario {
 			scenario{Name: "multi-shape", Shapes: []shape{other1, mine, other2}, MatchIdx: 1, N: n, Match: true, Conns: 2},
 			scenario{Name: "multi-shape", Shapes: []shape{other1, other2}, N: n, Match: false, Conns: 1},
 		)
+	}
+	// keep-alive: several responses on one shaped connection, to the URL the shape names and to another one
+	for _, seq := range [][]bool{{true, false}, {false, true}, {true, true}, {true, false, true}, {false, false}} {
+		for _, sh := range []shape{
+			{Regex: matchURL, Closes: []closeAct{{Byte: 800, Count: -1}}},
+			{Regex: matchURL, Closes: []closeAct{{Byte: 300, Count: 1}}},
+			{Regex: matchURL, Halts: []halt{{Byte: 700, Dur: 3000, Count: -1}}, Throttles: []throttle{{Bytes: "500-", BW: 100}}},
+		} {
+			out = append(out, scenario{Name: "keepalive", Shapes: []shape{sh}, N: 600, Match: true, Conns: 1, Seq: seq})
+		}
+	}
+	// response heads of different sizes (the head is not shaped and not counted, however many writes carry it)
+	for _, pad := range []int{3000, 4000, 4096, 5000, 9000} {
+		for _, n := range []int{600, 5000} {
+			out = append(out, scenario{Name: "big-head", Shapes: []shape{{Regex: matchURL, Closes: []closeAct{{Byte: 100, Count: -1}}}}, N: n, Match: true, Conns: 1, HeadPad: pad})
+			out = append(out, scenario{Name: "big-head", Shapes: []shape{{Regex: matchURL, Halts: []halt{{Byte: 50, Dur: 2000, Count: -1}}, Closes: []closeAct{{Byte: 450, Count: -1}}}}, N: n, Match: true, Conns: 1, HeadPad: pad, Seq: []bool{false, true}})
+		}
 	}
 	// counts across connections
 	for _, cnt := range []int64{1, 2, -1} {
